@@ -195,7 +195,9 @@ def decode(block, encoding, errors, line_delimiter):
         if not text:
             return []
         parts = text.split(line_delimiter)
+        # ``parts[-1]`` is what follows the last delimiter; ``text.endswith`` is not
+        # the same test when delimiter occurrences overlap ('ddd' split on 'dd')
         out = [t + line_delimiter for t in parts[:-1]] + (
-            parts[-1:] if not text.endswith(line_delimiter) else []
+            [parts[-1]] if parts[-1] else []
         )
         return out
